@@ -584,6 +584,41 @@ pub fn run(a: &Args) {
         push(&mut cases, &t, "filesystem".into(), probe(FileSystem::new(&root).unwrap(), &t, true));
         iter_monitor(FileSystem::new(&root).unwrap(), &t, "filesystem", &mut iter_bad);
         conc_reads += concurrent_reads(&FileSystem::new(&root).unwrap(), &t, "filesystem", &mut iter_bad);
+        // the same tree with symbolic links in it: a linked file is a file, a linked directory a
+        // directory with everything below it (the source follows links, like reading does)
+        #[cfg(unix)]
+        {
+            let rootl = base.join(format!("t{i}l"));
+            materialize_fs(&t, &rootl);
+            let mut tl = t.clone();
+            if let Some((id, ext, b)) = t.files.iter().find(|(id, _, _)| id.len() == 1).cloned() {
+                let target = rootl.join(Tree::rel_path(&id, Some(&ext)));
+                let link_id = vec!["lnkf".to_string()];
+                if std::os::unix::fs::symlink(&target, rootl.join(Tree::rel_path(&link_id, Some(&ext)))).is_ok() {
+                    tl.files.push((link_id, ext, b));
+                }
+            }
+            if let Some(d) = t.dirs.iter().find(|d| d.len() == 1).cloned() {
+                let target = rootl.join(Tree::rel_path(&d, None));
+                if std::os::unix::fs::symlink(&target, rootl.join("lnkd")).is_ok() {
+                    let re = |x: &Vec<String>| {
+                        let mut v = vec!["lnkd".to_string()];
+                        v.extend_from_slice(&x[1..]);
+                        v
+                    };
+                    for x in t.dirs.iter().filter(|x| x.starts_with(&d)) {
+                        tl.dirs.push(re(x));
+                    }
+                    for (id, ext, b) in t.files.iter().filter(|(id, _, _)| id.len() > d.len() && id.starts_with(&d)) {
+                        tl.files.push((re(id), ext.clone(), b.clone()));
+                    }
+                }
+            }
+            if tl.files.len() + tl.dirs.len() > t.files.len() + t.dirs.len() {
+                push(&mut cases, &tl, "filesystem with symbolic links".into(), probe(FileSystem::new(&rootl).unwrap(), &tl, true));
+                iter_monitor(FileSystem::new(&rootl).unwrap(), &tl, "filesystem with symbolic links", &mut iter_bad);
+            }
+        }
         // archives
         let n_variants = if a.thorough() { 6 } else { 3 };
         for v in 0..n_variants {
